@@ -35,6 +35,11 @@ for rid in ids:
         subprocess.run("git -C /repo checkout -- . && git -C /repo clean -fdq", shell=True)
     fired = {c: vs for c, vs in res.items() if vs}
     json.dump({"id": rid, "false_alarms": {c: [v["key"] + " :: " + v["reason"][:200] for v in vs[:5]] for c, vs in fired.items()}}, open(os.path.join(V, "refactors", rid, "result.json"), "w"), indent=1)
+    mp = os.path.join(V, "refactors", rid, "meta.json")
+    meta = json.load(open(mp)) if os.path.exists(mp) else {}
+    if fired and meta.get("verdict") == "beyond-reach":
+        print("%-8s false alarm in %s (recorded: beyond reach of the technique — %s)" % (rid, ", ".join(sorted(fired)), meta.get("reason", "")[:80]))
+        continue
     print("%-8s %s" % (rid, "clean" if not fired else "FALSE ALARM in " + ", ".join(sorted(fired))))
     for c, vs in fired.items():
         for v in vs[:3]:
